@@ -116,6 +116,34 @@ func properties() map[string]*PropertyDef {
 		LevelNote:   "assumed: totality of external callees and callbacks (listed per run in evidence); trusted: go/ssa lowering, govc encoding, solvers",
 		Technique:   "contract-based deductive verification (govc): generated safety obligations + loop variants + thin (safe_*) contracts, WP over go/ssa, z3/cvc5",
 	})
+	ps = append(ps, &PropertyDef{
+		ID:       "C03",
+		Patterns: []string{"./netutil"},
+		Funcs: []string{
+			"netutil.IsValidHostOuterRune", "netutil.IsValidHostInnerRune",
+			"netutil.ValidateDomainNameLabel", "netutil.ValidateHostnameLabel", "netutil.hasValidTLDChars",
+			"netutil.ValidateTLDLabel", "netutil.ValidateServiceNameLabel",
+			"netutil.ValidateDomainName", "netutil.ValidateHostname", "netutil.ValidateSRVDomainName",
+		},
+		Lemmas: []string{"nextDotIs", "nextDotNone", "hostImpliesSrv", "srvImpliesDom", "nameInclusions"},
+		Kinds:  map[string]bool{"ensures": true, "invariant": true, "lemma": true, "requires": true, "typeassert": true, "panic": true},
+		NeedsClauses: map[string][]string{
+			"netutil.ValidateHostname":      {"grammar", "error_carries_input", "safe_type"},
+			"netutil.ValidateDomainName":    {"grammar", "error_carries_input", "safe_type"},
+			"netutil.ValidateSRVDomainName": {"grammar", "error_carries_input", "safe_type"},
+			"netutil.ValidateHostnameLabel": {"grammar"}, "netutil.ValidateDomainNameLabel": {"grammar"},
+			"netutil.ValidateTLDLabel": {"grammar"}, "netutil.ValidateServiceNameLabel": {"grammar"},
+			"lemma:nameInclusions": {"host_in_srv", "srv_in_domain"},
+		},
+		Assumptions: []string{
+			"idna.ToASCII is a deterministic function of its argument (toASCII / toASCIIok in specs/idna.spec); the statement itself is phrased relative to it",
+			"strings.Cut / HasPrefix by their least-index characterisation (specs/strings.spec); string range yields runes per the UTF-8 decoding contract, so every non-ASCII byte is an invalid label character",
+		},
+		Explanation: "the grammar of the statement is written as recursive spec functions over the dot-separated labels; each validator's loop carries the invariant 'valid from the start <=> valid from the current label' (one unfolding per iteration); typed-error postconditions; inclusions by strong induction",
+		LevelText:   "proof: for every string, each validator returns nil exactly on the documented grammar (relative to idna.ToASCII), every rejection is an *AddrError carrying the original input and the validator's kind, and hostname-valid => SRV-valid => domain-name-valid",
+		LevelNote:   "assumed: idna.ToASCII deterministic; strings.Cut/HasPrefix, UTF-8 range contract; trusted: go/ssa lowering, govc encoding, solvers",
+		Technique:   "contract-based deductive verification (govc): recursive grammar spec functions, loop invariants, induction lemmas, WP over go/ssa, z3/cvc5",
+	})
 	out := map[string]*PropertyDef{}
 	for _, p := range ps {
 		out[p.ID] = p
